@@ -209,11 +209,28 @@ static bool has_zero_base_pow(const Basic &e, int depth = 0)
     return false;
 }
 static std::string g_opclass; // "<op>(<operand types>)[|zero-base-pow]" of the transition being executed
+// does the tree contain a negative integer raised to a non-integer rational (e.g. (-1)**(2/3))?
+static bool has_neg_int_surd(const Basic &e)
+{
+    if (is_a<Pow>(e)) {
+        const Pow &p = down_cast<const Pow &>(e);
+        if (is_a<Integer>(*p.get_base()) && down_cast<const Integer &>(*p.get_base()).is_negative() && is_a<Rational>(*p.get_exp()))
+            return true;
+    }
+    for (auto &a : e.get_args())
+        if (has_neg_int_surd(*a))
+            return true;
+    return false;
+}
 static void set_opclass(const std::string &op, const RCP<const Basic> &a, const RCP<const Basic> *b)
 {
     g_opclass = op + "(" + type_code_name(a->get_type_code()) + (b ? "," + type_code_name((*b)->get_type_code()) : "") + ")";
     if (has_zero_base_pow(*a) || (b && has_zero_base_pow(**b)))
         g_opclass += "|zero-base-pow";
+    // (only for expand: the marker separates the surd-coefficient class of pow_expand from other expand defects; the
+    // signatures of the other operations stay as recorded in known_findings.txt)
+    if (op == "expand" && has_neg_int_surd(*a))
+        g_opclass += "|neg-int-surd";
 }
 
 static void run_op(const std::string &opname, const std::string &recipe, const std::function<RCP<const Basic>()> &f, Ctx &c)
@@ -437,7 +454,14 @@ int main(int argc, char **argv)
             {"1/2", Rq2(1, 2)},
             {"-1/2", Rq2(-1, 2)},
             {"2/3", Rq2(2, 3)},
-            {"I", I}};
+            {"I", I},
+            // sums whose terms carry surd coefficients: in a product of two such sums the cross terms' surds multiply
+            // to a NUMBER of either sign (sqrt2*sqrt2 = 2, (-1)^(1/3)*(-1)^(2/3) = -1), which is the tidy-up branch of
+            // ExpandVisitor::mul_expand_two and the coefficient extraction in Add/Mul (added after seeded change C03b)
+            {"1+(-1)^(1/3)*x", add(one, mul(pow(integer(-1), Rq2(1, 3)), X))},
+            {"1+(-1)^(2/3)*y", add(one, mul(pow(integer(-1), Rq2(2, 3)), Y))},
+            {"1+sqrt(2)*x", add(one, mul(sqrt(integer(2)), X))},
+            {"1-sqrt(2)*y", sub(one, mul(sqrt(integer(2)), Y))}};
         for (auto &l : tl)
             TS.add(l.second, l.first, 0);
     }
@@ -535,7 +559,7 @@ int main(int argc, char **argv)
     R.transitions = R.evaluations;
     R.bound_completed = "all " + std::to_string(NU) + " unary and " + std::to_string(NB) + " binary public operations on S0 (" + std::to_string(n0)
                         + " leaves) and on S1 (" + std::to_string(n1) + " states; unary on S1, binary on S1xS0 and S0xS1"
-                        + (thorough ? ", arithmetic on S1xS1" : "") + "); plus the algebraic core over 25 structured leaves (products, "
+                        + (thorough ? ", arithmetic on S1xS1" : "") + "); plus the algebraic core over 29 structured leaves (products, "
                           "radicals of products/sums, small exponents): 11 unary + 5 arithmetic operations on T0 and on T1 x T0 in both orders";
     R.rule = "E1 in the assertion build: SYMENGINE_ASSERT is re-defined (forced include, no source change) to throw; leaves = numbers of every "
              "kind, constants, infinities, nan, x, y; operations = arithmetic, ~46 function constructors, two-argument functions, expand, diff, "
